@@ -168,8 +168,13 @@ def task_profile(pr, repo):
     QU = z3.Function('QTOT_U', z3.RealSort(), z3.RealSort())
     QF = z3.Function('QTOT_F', z3.RealSort(), z3.RealSort())
 
+    QO = z3.Function('QTOT_OTHER', z3.RealSort(), z3.RealSort())
+
     def cc_contract(ex, ctx, fi_, args, kwargs, self_obj):
         ph = kwargs.get('ph', args[1] if len(args) > 1 else None)
+        if self_obj.name != 'conf':
+            # another conformation of the same molecule: its own, different curves
+            return (Sym(QO(ph.e)), Sym(QO(ph.e) + 1))
         return (Sym(QU(ph.e)), Sym(QF(ph.e)))
     ex.contracts[CC] = cc_contract
     grid_vals = [R('p0'), R('p1'), R('p2')]
@@ -178,7 +183,8 @@ def task_profile(pr, repo):
     def thunk(ex, ctx):
         CCls = repo.cls('propka.conformation_container.ConformationContainer')
         conf = record('conf', CCls)
-        mol = record('mol', MC, conformations={'AVR': conf}, version=record('version', None, parameters=None))
+        mol = record('mol', MC, conformations={'1A': record('conf1A', CCls), '1B': record('conf1B', CCls), 'AVR': conf},
+                     conformation_names=['1A', '1B'], version=record('version', None, parameters=None))
         r = ex.call_function(fi, [], {'conformation': 'AVR', 'grid': (R('g0'), R('g1'), R('g2'))}, self_obj=mol)
         ok = len(r) == 3
         conj = [ok]
@@ -186,7 +192,8 @@ def task_profile(pr, repo):
             for i, p in enumerate(grid_vals):
                 row = r[i]
                 conj.append(And(len(row) == 3, row[0] == p, row[1] == Sym(QU(p.e)), row[2] == Sym(QF(p.e))))
-        ctx.oblige('get_charge_profile: one row [ph, Q_unfolded(ph), Q_folded(ph)] per grid value, in grid order', And(*conj))
+        ctx.oblige('get_charge_profile: one row [ph, Q_unfolded(ph), Q_folded(ph)] per grid value, in grid order, computed from the '
+                   'container of the conformation asked for (the average has its own container - the one the folding profile uses)', And(*conj))
         return r
     pr.explore(ex, thunk, GP)
 
